@@ -293,6 +293,10 @@ def method_fn(m, cont_ty):
         ret = cont_ty
     elif r == "s3":
         ret = path("S3")
+    elif r == "vptr":
+        ret = ptr(prim("c_void"), False)
+    elif r == "cvptr":
+        ret = ptr(prim("c_void"), True)
     elif r in SCALARS:
         ret = prim(SCALARS[r])
     else:
